@@ -62,6 +62,9 @@ def ref_deps(ref):
 def func_impl(fname):
     if fname == 'collect':
         return lambda *a, **kw: (a, tuple(sorted(kw.items())))
+    if fname == 'typed':
+        # sensitive to the TYPE of its arguments (1 / True / 1.0 differ), like a formatter
+        return lambda *a, **kw: repr((a, tuple(sorted(kw.items()))))
     if fname == 'collect_packed':
         return lambda args, **kw: (args, tuple(sorted(kw.items())))
     if fname == 'sum':
@@ -553,7 +556,8 @@ def random_spec(rng):
             low = rng.choice([0, 0.5, 1, 2, 3])
             cb['params'] = {'low': low, 'high': low + rng.choice([0, 0.5, 1, 2])}
         else:
-            f = rng.choice(['collect', 'collect_packed', 'sum', 'sum_packed', 'count_kw', 'ident'])
+            f = rng.choice(['collect', 'collect_packed', 'sum', 'sum_packed', 'count_kw', 'ident',
+                            'typed', 'typed'])
             cb['params'] = {'func': f, 'unpack': not f.endswith('_packed')}
             if f == 'ident':
                 r1, tag = ref()
@@ -631,7 +635,10 @@ def random_bursts(rng, spec):
     bursts = []
     for _ in range(rng.randrange(3, 12)):
         burst = []
-        for _ in range(rng.choice([1, 1, 2, 3, 4])):
+        # (now and then a storm: dozens of changes of sequential blocks before the simulator
+        # gets a chance to react - far more than 3 x the number of blocks)
+        for _ in range(rng.choice([1, 1, 2, 3, 4]) if rng.random() < 0.93
+                       else rng.randrange(30, 120)):
             s = rng.choice(spec['sources'])
             if s.get('obj'):
                 burst.append((s['name'], 'put', rng.choice(OBJVALS)))
